@@ -11,6 +11,7 @@ import (
 	"os"
 	"path/filepath"
 	"strings"
+	"testing/iotest"
 
 	"github.com/spf13/afero"
 )
@@ -27,7 +28,7 @@ func runC17OS(c *Ctx) {
 	victim := filepath.Join(dir, "real", "victim.txt")
 	spellings := []string{
 		victim,
-		dir + "/link/../victim.txt",          // resolves to real/victim.txt, cleans to <dir>/victim.txt
+		dir + "/link/../victim.txt", // resolves to real/victim.txt, cleans to <dir>/victim.txt
 		dir + "/real/./sub/../victim.txt",
 		dir + "//real//victim.txt",
 	}
@@ -97,6 +98,10 @@ func runC17SizedReaders(c *Ctx, fs afero.Fs) {
 					r.Seek(int64(used), io.SeekStart)
 					return r
 				},
+				// a reader that hands out its last bytes TOGETHER with io.EOF, and one byte per call
+				func() io.Reader { return iotest.DataErrReader(bytes.NewReader(payload[used:])) },
+				func() io.Reader { return iotest.OneByteReader(iotest.DataErrReader(bytes.NewReader(payload[used:]))) },
+				func() io.Reader { return iotest.HalfReader(bytes.NewReader(payload[used:])) },
 			} {
 				for h, how := range []string{"WriteReader", "SafeWriteReader", "Afero.WriteReader"} {
 					n++
@@ -119,5 +124,5 @@ func runC17SizedReaders(c *Ctx, fs afero.Fs) {
 			}
 		}
 	}
-	c.Extra["sized_readers"] = fmt.Sprintf("%d writes from partly consumed strings/bytes/section readers (oracle only)", n)
+	c.Extra["sized_readers"] = fmt.Sprintf("%d writes from partly consumed strings/bytes/section readers and from readers that deliver data together with io.EOF, one byte or half the buffer per call (oracle only)", n)
 }
